@@ -5,5 +5,5 @@ From Coq Require Import ExtrOcamlBasic.
 From C15 Require Import Model.
 Extraction Language OCaml.
 Cd "ocaml".
-Extraction "model.ml" run_ring run_gcd5 run_gcd4 run_divmod run_powmod run_q gcdext invmod.
+Extraction "model.ml" run_ring run_gcd5 run_gcd4 run_divmod run_divmod_w run_powmod run_q gcdext invmod.
 Cd "..".
